@@ -592,6 +592,19 @@ def interfere(field, seed):
         lambda: ia.refine_droplet(other, droplets.DiffuseDroplet(np.full(field.grid.dim, 5.0), 2.0, 0.8),
                                   least_squares_params={"ftol": 1e-1}),
     ]
+    try:
+        # the same image on a grid of the same shape and bounds whose axes are periodic where this one's are not
+        import pde
+
+        g = field.grid
+        if type(g).__name__ in ("CartesianGrid", "UnitGrid"):
+            sib = pde.CartesianGrid(g.axes_bounds, g.shape, periodic=[not p for p in g.periodic])
+            sf = pde.ScalarField(sib, field.data)
+            droplets.locate_droplets(sf, refine=True)
+            droplets.Emulsion(droplets.locate_droplets(sf)).get_phasefield(sib)
+            done += 1
+    except Exception:  # noqa: BLE001
+        pass
     for k in r.permutation(len(calls))[: int(r.integers(2, len(calls) + 1))]:
         try:
             calls[int(k)]()
